@@ -6,6 +6,19 @@ FLAT_MODE = True
 SPECS = []
 CONTRACTS = {}
 
+TILING = ['len(st) == p and len(ln) == p', 'p >= 1', 'st[0] == 0', 'forall(0, p - 1, lambda k: st[k] + ln[k] == st[k + 1])',
+          'st[p - 1] + ln[p - 1] == n', 'forall(0, p, lambda k: ln[k] >= 0)']
+LEMMAS = [
+    # the chain form of "the blocks tile [0, n) in rank order" (what Layout.__init__ is proved to establish, C02) gives the
+    # closed forms the transpose helpers need: earlier blocks end before later ones start, every block ends inside [0, n]
+    dict(name='tiling_ordered', vars=[('st', 'iarr1'), ('ln', 'iarr1'), ('p', 'int'), ('n', 'int')], requires=TILING,
+         induct=dict(var='k2', lo='0', hi='p'),
+         ensures=['forall(0, k2, lambda k1: st[k1] + ln[k1] <= st[k2])']),
+    dict(name='tiling_bounded', vars=[('st', 'iarr1'), ('ln', 'iarr1'), ('p', 'int'), ('n', 'int')],
+         requires=TILING + ['forall(0, p, lambda k2: forall(0, k2, lambda k1: st[k1] + ln[k1] <= st[k2]))'],
+         ensures=['forall(0, p, lambda k: st[k] + ln[k] <= n and 0 <= st[k])']),
+]
+
 
 def swap_axes(order_src, order_dst, pattern):
     """axis triple of LayoutHandler._get_swap_axes for a compatible pair (exactly one distributed position differs)."""
@@ -71,6 +84,82 @@ def extract_contract(R, order_src, order_dst, pattern):
                                   'start + (%s - _i) * %s <= len(tobuffer)' % (P, SIZE), block('b', '_i')])})
 
 
+def geometry(R, order_src, order_dst, pattern):
+    a0, a1, a2 = swap_axes(order_src, order_dst, pattern)
+    a1p = a0 if a1 == 0 else a1
+    S = ['layout_source._shape[%d]' % k for k in range(R)]
+    D = ['layout_dest._shape[%d]' % k for k in range(R)]
+    m = 'layout_source._max_shape[%d]' % a0
+    big = list(S)
+    big[a1] = 'layout_dest._max_shape[%d]' % a0
+    big[a0] = '%s * comm_size(comm)' % m
+    lens = list(S)
+    lens[a1] = 'layout_dest._max_shape[%d]' % a0
+    lens[a0] = m
+    so = list(order_src)
+    if a0 != 0:
+        big[0], big[a0] = big[a0], big[0]
+        lens[0], lens[a0] = lens[a0], lens[0]
+        so[0], so[a0] = so[a0], so[0]
+    T = [so.index(d) for d in order_dst]
+    return dict(a0=a0, a1=a1, a2=a2, a1p=a1p, S=S, D=D, m=m, big=big, lens=lens, T=T, so=so)
+
+
+def rearrange_contract(R, order_src, order_dst, pattern):
+    g = geometry(R, order_src, order_dst, pattern)
+    a0, a1, a2, a1p, S, D, m, big, lens, T = (g[k] for k in ('a0', 'a1', 'a2', 'a1p', 'S', 'D', 'm', 'big', 'lens', 'T'))
+    LEN = 'layout_source._mpi_lengths[%d]' % a0
+    ST = 'layout_source._mpi_starts[%d]' % a0
+    P = 'comm_size(comm)'
+    CHUNK = 'prodof([%s])' % ', '.join(lens)
+    jv = ['j%d' % k for k in range(R)]
+    # destView[j] = bufView[bidx] with bidx[T[k]] = j[k]; inside block r the first buffer index is j[a2] - start_r
+    iv = [None] * R
+    for k in range(R):
+        iv[T[k]] = jv[k]
+    assert T[a2] == 0
+    iv[0] = '%s - %s[{r}]' % (jv[a2], ST)
+
+    def moved(r, upto):
+        bounds = []
+        for k in range(R):
+            bounds += ['0', D[k]]
+        body = ('implies({st}[{r}] <= {ja} and {ja} < {st}[{r}] + {ln}[{r}], data[flatidx([{D}], [{j}])] == '
+                'peer_send(comm, {r})[comm_rank(comm) * {chunk} + flatidx([{lens}], [{i}])])').format(
+            st=ST, ln=LEN, r=r, ja=jv[a2], D=', '.join(D), j=', '.join(jv), chunk=CHUNK, lens=', '.join(lens),
+            i=', '.join(x.format(r=r) for x in iv))
+        return 'forall(0, %s, lambda %s: forall(%s, lambda %s: %s))' % (upto, r, ', '.join(bounds), ', '.join(jv), body)
+    req = ['len(%s) == %s and len(%s) == %s' % (LEN, P, ST, P),
+           '%s[0] == 0' % ST,
+           'forall(0, %s - 1, lambda k: %s[k] + %s[k] == %s[k + 1])' % (P, ST, LEN, ST),
+           '%s[%s - 1] + %s[%s - 1] == %s' % (ST, P, LEN, P, D[a2]),
+           # closed forms of the tiling (consequences of the two clauses above: lemmas tiling_ordered, tiling_bounded)
+           'forall(0, %s, lambda k2: forall(0, k2, lambda k1: %s[k1] + %s[k1] <= %s[k2]))' % (P, ST, LEN, ST),
+           'forall(0, %s, lambda k: %s[k] + %s[k] <= %s)' % (P, ST, LEN, D[a2]),
+           'forall(0, %s, lambda k: 0 <= %s[k] and %s[k] <= %s)' % (P, LEN, LEN, m),
+           '%s >= 0 and layout_dest._max_shape[%d] >= 0' % (m, a0),
+           '0 <= %s and %s <= layout_dest._max_shape[%d]' % (D[a0], D[a0], a0),
+           'layout_dest._size == prodof([%s])' % ', '.join(D)]
+    req += ['%s >= 0 and %s >= 0' % (S[k], D[k]) for k in range(R)]
+    # every other axis has the same local extent before and after (same dimension, same distribution): C02
+    for k in range(R):
+        if k not in (a2, a0):
+            req.append('%s == %s' % (D[k], big[T[k]]))
+    SIZE = 'prodof([%s])' % ', '.join(big)
+    req += ['%s <= len(data) and %s <= len(buf)' % (SIZE, SIZE), 'layout_dest._size <= len(data)',
+            # if both extents divide evenly every block is full (C02: balanced partition) - the condition of the fast branch
+            'implies({Da2} % {P} == 0 and {Sa1} % {P} == 0, forall(0, {P}, lambda k: {LEN}[k] == {m} and {ST}[k] == k * {m}) and '
+            '{Da0} == layout_dest._max_shape[{a0}])'.format(Da2=D[a2], Sa1=S[a1], P=P, LEN=LEN, ST=ST, m=m, Da0=D[a0], a0=a0)]
+    return dict(
+        params={'data': 'arr1', 'buf': 'arr1', 'layout_source': layout_spec(R, order_src, 'src'),
+                'layout_dest': layout_spec(R, order_dst, 'dst'), 'axis': ('const', [a0, a1, a2]), 'comm': 'comm'},
+        requires=req, modifies=['data', 'buf'],
+        alltoall=(CHUNK, lens),
+        # every destination element comes from the right place of the right member's send buffer
+        ensures=[moved('r', P)],
+        loops={'for r in range(mpi_size)': dict(inv=[moved('rr', 'r')], case_split={'rr': ['r - 1']})})
+
+
 def cases(tier, rng=None):
     out = []
     std = {'flux_surface': (0, 3, 1, 2), 'v_parallel': (0, 2, 1, 3), 'poloidal': (3, 2, 1, 0)}
@@ -78,8 +167,16 @@ def cases(tier, rng=None):
              ('poloidal', 'v_parallel', '22'), ('poloidal', 'v_parallel', '21'),
              # leading process count 1: the swapped axis is position 0 (axis[1] == 0), the case of the repaired defect
              ('poloidal', 'flux_surface', '12'), ('flux_surface', 'poloidal', '12')]
+    if tier == 'quick':
+        keep = [0, 5]
+        if rng is not None:
+            keep.append(int(rng.choice([1, 2, 3, 4, 6])))
+        pairs = [pairs[k] for k in keep]
     for (a, b, pat) in pairs:
         C = {L + '::LayoutHandler._extract_from_source': extract_contract(4, list(std[a]), list(std[b]), pat)}
         out.append(dict(label='_extract_from_source %s->%s grid %s' % (a, b, pat), struct=None,
                         key=L + '::LayoutHandler._extract_from_source', contracts=C))
+        C2 = {L + '::LayoutHandler._rearrange_from_buffer': rearrange_contract(4, list(std[a]), list(std[b]), pat)}
+        out.append(dict(label='_rearrange_from_buffer %s->%s grid %s' % (a, b, pat), struct=None,
+                        key=L + '::LayoutHandler._rearrange_from_buffer', contracts=C2))
     return out
